@@ -120,6 +120,8 @@ EXPORT errno_t _asctime_s_chk(char *dest, rsize_t dmax, const struct tm *tm,
 
     CHK_DEST_NULL("asctime_s")
     if (unlikely(dmax < 26)) {
+        if (dmax > 0)
+            *dest = '\0';
         invoke_safe_str_constraint_handler("asctime_s: dmax is too small", NULL,
                                            ESLEMIN);
         return ESLEMIN;
@@ -137,8 +139,7 @@ EXPORT errno_t _asctime_s_chk(char *dest, rsize_t dmax, const struct tm *tm,
     }
 
     if (unlikely(tm == NULL)) {
-        invoke_safe_str_constraint_handler("asctime_s: tm is null", NULL,
-                                           ESNULLP);
+        handle_error(dest, dmax, "asctime_s: tm is null", ESNULLP);
         return ESNULLP;
     }
 
@@ -149,8 +150,8 @@ EXPORT errno_t _asctime_s_chk(char *dest, rsize_t dmax, const struct tm *tm,
         || tm->tm_gmtoff < -1036800 /* 12*86400 */
 #endif
     ) {
-        invoke_safe_str_constraint_handler(
-            "asctime_s: a tm member is too small", NULL, ESLEMIN);
+        handle_error(dest, dmax, "asctime_s: a tm member is too small",
+                     ESLEMIN);
         return ESLEMIN;
     }
 
@@ -162,8 +163,8 @@ EXPORT errno_t _asctime_s_chk(char *dest, rsize_t dmax, const struct tm *tm,
 #endif
     ) {
         /* does EOVERFLOW in asctime() */
-        invoke_safe_str_constraint_handler(
-            "asctime_s: a tm member is too large", NULL, ESLEMAX);
+        handle_error(dest, dmax, "asctime_s: a tm member is too large",
+                     ESLEMAX);
         return ESLEMAX;
     }
 
@@ -181,8 +182,14 @@ EXPORT errno_t _asctime_s_chk(char *dest, rsize_t dmax, const struct tm *tm,
     } else {
         char tmp[120];
         buf = asctime_r(tm, (char *)&tmp);
-        if (!buf)
+        if (!buf) {
+#ifdef SAFECLIB_STR_NULL_SLACK
+            memset(dest, 0, dmax);
+#else
+            *dest = '\0';
+#endif
             return -1;
+        }
         len = strlen(buf);
         if (likely(len < dmax)) {
             strcpy_s(dest, dmax, buf);
